@@ -219,7 +219,9 @@ pub fn second_run_is_noop(dir: &str) -> Option<String> {
     env.populate("dst")?;
     let src = env.dir.join("src");
     let set = |p: &str, secs: u64, nanos: u32| { if let Ok(f) = std::fs::File::options().write(true).open(src.join(p)) { let _ = f.set_modified(std::time::UNIX_EPOCH + std::time::Duration::new(secs, nanos)); } };
-    set("a.txt", 1_600_000_000, 750_000_000); set("empty", 0, 0); set("sub/big.bin", 4_000_000_000, 1); set("sub/small.bin", 1_700_000_000, 999_999_999);
+    // names ending in white space (a listing parser that trims its records loses them)
+    for n in ["draft ", "tab\t", "sub/trailing newline\n"] { let _ = std::fs::write(src.join(n), b"x"); }
+    set("a.txt", 1_600_000_000, 750_000_000); set("empty", 0, 0); set("sub/big.bin", 4_000_000_000, 1); set("sub/small.bin", 1_700_000_000, 999_999_999); set("draft ", 500, 500_000_000);
     let stamp = |r: &Path| -> BTreeMap<String, (Vec<u8>, u64)> { tree(r).into_iter().map(|(p, b)| { let m = std::fs::metadata(r.join(&p)).and_then(|m| m.modified()).ok().and_then(|t| t.duration_since(std::time::UNIX_EPOCH).ok()).map(|d| d.as_secs()).unwrap_or(0); (p, (b, m)) }).collect() };
     let (rc, out) = env.run(dir, "dst");
     if rc != Some(0) { return Some(format!("[{dir}] the first run failed (exit {rc:?}): {} (C14)", out.lines().last().unwrap_or(""))); }
